@@ -114,6 +114,18 @@ theorem C20_unprotected_accumulation_loses_updates :
     ∃ s x y : Rat, racyTwoThreads s x y ≠ s + x + y :=
   ⟨0, 1, 1, by simp only [racyTwoThreads]; norm_num⟩
 
+/-- Known finding C20-redundant-computation-on-reduction: a reduction loop extended into the halo
+(`Dynamo0p3RedundantComputationTrans` accepts it) sums more than the owned DoFs. -/
+theorem C20_reduction_over_halo_differs :
+    ∃ f : Nat → Rat, sumOver f (dofs 4) ≠ sumOver f (dofs 3) :=
+  ⟨fun _ => 1, by simp only [sumOver, dofs]; norm_num⟩
+
+/-- Known finding C20-reprod-sum-read-in-region: in the reproducible scheme the shared scalar still holds its
+zero-initialisation until the sequential combining loop after the parallel region has run. -/
+theorem C20_reprod_sum_unavailable_before_combination :
+    ∃ (f : Nat → Rat) (n : Nat), (0 : Rat) ≠ 0 + sumOver f (dofs n) :=
+  ⟨fun _ => 1, 1, by simp only [sumOver, dofs]; norm_num⟩
+
 /-- With the layout of the developer guide (owned DoFs first) the annexed range contains the owned range:
 computing annexed DoFs never loses an owned DoF. -/
 theorem C20_annexed_range_covers_owned (L : Layout) (h : L.owned ≤ L.annexed) (df : Nat)
